@@ -547,6 +547,23 @@ func (r *DRun) stepBuffer(i int, op *DOp) {
 		}
 		m.Reset()
 		st.Inc("resets")
+	case "badinit":
+		var err error
+		cfg := lz.DecoderConfig{WindowSize: op.W2, BufferSize: op.B2}
+		if pv := call(func() { err = b.Init(cfg) }); pv != nil {
+			r.failf(i, "panic", "panic-Init", "Init(%+v): %s", cfg, fmtPanic(pv))
+			return
+		}
+		if err == nil {
+			// accepted after all: a new stream on the geometry the buffer
+			// reports (whether that was right is not decided here)
+			m.Reset()
+			r.W, r.B = b.WindowSize, b.BufferSize
+			st.Inc("invalid_config_accepted_by_init")
+			break
+		}
+		// rejected: everything as before (checked by the invariants below)
+		st.Inc("rejected_reinits")
 	case "reinit":
 		var err error
 		cfg, w2, b2 := r.reinitCfg(op)
@@ -927,6 +944,27 @@ func (r *DRun) stepDecoder(i int, op *DOp) {
 				return
 			}
 		}
+	case "badinit":
+		// Init with a configuration that must be rejected returns the error
+		// and leaves the decoder, incl. its writer and unflushed data, alone
+		cfg := lz.DecoderConfig{WindowSize: op.W2, BufferSize: op.B2}
+		w2 := &planWriter{fault: w.fault, calls: w.calls, faultsSeen: w.faultsSeen}
+		var ierr error
+		if pv := call(func() { ierr = d.Init(w2, cfg) }); pv != nil {
+			r.failf(i, "panic", "panic-Decoder.Init", "Init(%+v): %s", cfg, fmtPanic(pv))
+			return
+		}
+		if ierr == nil {
+			// accepted after all: a new stream on the new writer
+			c := cfg
+			c.SetDefaults()
+			r.w = w2
+			m.Reset()
+			r.W, r.B = c.WindowSize, c.BufferSize
+			st.Inc("invalid_config_accepted_by_init")
+			return
+		}
+		st.Inc("rejected_reinits")
 	case "reinit":
 		// Init on a used Decoder starts a new stream on a new writer
 		var err error
@@ -1223,6 +1261,25 @@ func GenDOps(r *rand.Rand, g *DGen) []DOp {
 				default:
 					op.B2 = op.W2 + 1
 				}
+			}
+			ops = append(ops, op)
+		case k < 97:
+			// Init with a configuration that must be rejected: the error is
+			// returned and the decoder goes on as it was
+			op := DOp{K: "badinit", Re: true}
+			switch r.Intn(6) {
+			case 0:
+				op.W2, op.B2 = g.B, g.B
+			case 1:
+				op.W2, op.B2 = g.B+1+r.Intn(3), g.B
+			case 2:
+				op.W2, op.B2 = 4*g.B+64, 4*g.B+64
+			case 3:
+				op.W2, op.B2 = g.W, -1-r.Intn(3)
+			case 4:
+				op.W2, op.B2 = -1-r.Intn(3), g.B
+			default:
+				op.W2, op.B2 = g.W, 1<<32+r.Intn(3)
 			}
 			ops = append(ops, op)
 		default:
